@@ -183,16 +183,23 @@ func (st *StateDB) newStakingRecord(key biAddress) *stakingRecord {
 
 func (st *StateDB) updateStakingTrie() error {
 	//stakingRecords
+	// A record that cannot be encoded or written must not decide which of the OTHER dirty records reach the trie:
+	// Go's map iteration order is random, so returning from inside the loop made the staking root of one and the same
+	// block differ from execution to execution. Every writable record is written; the first error is reported after
+	// the loop (as before, on error the dirty set is kept and the pending relationship is not written).
+	var firstErr error
 	for key := range st.stakingRecordsDirty {
 		sr := st.stakingRecords[key]
 		data, err := rlp.EncodeToBytes(sr)
-		if err != nil {
-			return err
+		if err == nil {
+			err = st.stakingTrie.TryUpdate(key[:], data)
 		}
-		err = st.stakingTrie.TryUpdate(key[:], data)
-		if err != nil {
-			return err
+		if err != nil && firstErr == nil {
+			firstErr = err
 		}
+	}
+	if firstErr != nil {
+		return firstErr
 	}
 	if len(st.stakingRecordsDirty) > 0 {
 		st.stakingRecordsDirty = make(map[biAddress]struct{})
